@@ -91,6 +91,10 @@ package etype
 //@   pure
 //@   trusted_frame interface frame; implementations delegate to the family functions
 //@   ensures err != nil ==> len(pt) == 0
+//@   ensures err == nil <==> et_dec_ok(tagof(e), bytes(key), usage, bytes(ciphertext))
+//@   ensures err == nil ==> bytes(pt) == et_dec_pt(tagof(e), bytes(key), usage, bytes(ciphertext))
+//@   trusted_ensures 1 et_dec_ok is the definition of "this etype's DecryptMessage accepts" at the protocol level; C05/C06 relate it to the RFC compositions
+//@   trusted_ensures 2 et_dec_pt likewise
 //@ func (crypto/etype.EType).EncryptMessage(e, key, message, usage) (iv, ct, err)
 //@   pure
 //@   trusted_frame interface frame; implementations delegate to the family functions
